@@ -142,11 +142,12 @@ def run_variant(args: tuple) -> dict:
                 import glob
                 import subprocess
 
-                pf = glob.glob(os.path.join(VERIF, "design", "planned_repairs", REVERSALS[v.name] + "-*.patch"))[0]
-                p = subprocess.run(["patch", "-p1", "-R", "-s", "-f", "-d", scratch, "-i", pf], capture_output=True, text=True)
-                if p.returncode != 0:
-                    raise EditError(f"reverse patch {REVERSALS[v.name]} does not apply: {p.stdout.strip()[:200]}")
-                res["edits"].append(f"reverse of planned repair {REVERSALS[v.name]}")
+                for num in REVERSALS[v.name].split(","):
+                    pf = glob.glob(os.path.join(VERIF, "design", "planned_repairs", num + "-*.patch"))[0]
+                    p = subprocess.run(["patch", "-p1", "-R", "-s", "-f", "-d", scratch, "-i", pf], capture_output=True, text=True)
+                    if p.returncode != 0:
+                        raise EditError(f"reverse patch {num} does not apply: {p.stdout.strip()[:200]}")
+                    res["edits"].append(f"reverse of planned repair {num}")
             if v.name in WHOLE_FILE:
                 path = os.path.join(scratch, "src", "haiway", WHOLE_FILE[v.name])
                 with open(path, encoding="utf-8") as fh:
